@@ -93,6 +93,16 @@ class Spec:
         self.subclasses: dict[str, tuple[str, ...]] = {}
         self.injective_fstrings: set[str] = set()
 
+    def define(self, name, params, expr):
+        """A spec-only function given by an expression of the contract language over its parameters."""
+        def f(ex, *args):
+            if len(args) != len(params):
+                raise ValueError('spec function %s expects %d arguments' % (name, len(params)))
+            return ex.spec_eval(expr, dict(zip(params, args)), entry=ex.entry)
+        self.specfuns[name] = f
+        self.definitions = getattr(self, 'definitions', {})
+        self.definitions[name] = (params, expr)
+
     def field(self, name, ty):
         self.fields[name] = parse_ty(ty)
 
